@@ -10,7 +10,7 @@ use crate::{
     logging,
 };
 use std::cmp::min;
-use std::sync::{atomic::Ordering, Arc, Mutex, Weak};
+use crate::vsync::{atomic::Ordering, Arc, Mutex, Weak};
 
 /// Traffic Shaping `Checker` performs checking according to current metrics and the traffic
 /// shaping strategy, then yield the token result.
